@@ -57,6 +57,74 @@ NEEDS = {
  'C19-2': ('groups.py: character-data check skipped for childless elements', 'a childless element of an element-only type with emptiable content, damaged with text'),
  'C20-1': ('selectors.py cache key uses prefixes without their URIs', 'two documents/schemas using the same prefix for different namespaces with the same path string in one process'),
  'C20-2': ('schemas.py iter_errors: prev_ancestors aliases the live ancestors list', 'path= selecting elements below >= 2 instances of an element that declares unique/key, violation under the 2nd+ instance'),
+ # ---- round 2
+ 'C01-3': ('elements.py iter_substitutes (XSD 1.0): members reachable only through an abstract intermediate head are dropped',
+           'head <- abstract member <- leaf member, an instance using the leaf where the head is declared'),
+ 'C01-4': ('models.py ModelVisitor.advance: the occurrence counter of an inner group is not reset on entry',
+           'a repeated sequence containing a group with minOccurs >= 2 that is filled once and under-filled in a later iteration: ((a|b){2,2}, c)+ accepts "abcac"'),
+ 'C02-3': ('facets.py length / minLength / maxLength: the QName/NOTATION exemption tested with is_qname()/is_notation() (true for lists of them)',
+           'a list whose itemType is directly xs:QName or xs:NOTATION, restricted by a length-family facet'),
+ 'C02-4': ('simple_types.py XsdUnion.raw_decode: the pushed pattern is matched against the raw text instead of the member-normalised text',
+           'a pattern-restricted union and a valid value with leading / trailing / repeated blanks'),
+ 'C03-3': ('wildcards.py XsdWildcard.__copy__: the not_qname set is shared with the copy unless notNamespace is present',
+           'XSD 1.1: two attribute groups with notQName wildcards combined in one type, and another type using only the first group'),
+ 'C03-4': ('attributes.py fixed check: the lexical short-cut removed, decoded values compared only (nan != nan)',
+           'an xs:float / xs:double attribute with fixed="NaN", present with the identical value or absent'),
+ 'C05-3': ('gdata.py element_encode: list-valued attribute re-mapped with the element-style name',
+           'GData converter, a list-typed attribute, an instance under a default namespace'),
+ 'C05-4': ('elements.py match_child returns the matched particle (head / xs:any) instead of the resolved declaration',
+           'default / Unordered converter, a list-typed element reached through a substitution group or a wildcard'),
+ 'C06-3': ('xml_loader.py _clear + xml_resource.py iter_depth: the lazy XPath tree is reset only in the thin branch',
+           'lazy validation (no path) of a document larger than one parser read with root-level key / keyref'),
+ 'C06-4': ('schemas.py get_element: for paths ending in * the global element map is consulted first',
+           'lazy processing of a chunk whose LOCAL declaration shares its name with a differently typed GLOBAL element'),
+ 'C07-3': ('elements.py iter_substitutes (XSD 1.0): same change as C01-3', 'head <- abstract member <- leaf member'),
+ 'C07-4': ('groups.py check_dynamic_context: the block of the head TYPE is ignored when the head ELEMENT has no effective block',
+           'head element without block, head complexType with block="extension", a member whose type is derived by extension'),
+ 'C08-3': ('identities.py FieldValueSelector.get_value: an unprefixed xs:QName field value is no longer resolved with the default namespace',
+           'QName-typed key / keyref fields, a default namespace in scope, the same expanded name written once unprefixed and once prefixed'),
+ 'C09-3': ('builders.py GlobalMaps.build: XSD 1.1 defaultAttributes resolved after the types are built',
+           'XSD 1.1 defaultAttributes with the attribute group declared in an INCLUDED document'),
+ 'C09-4': ('loaders.py load_schema: settings.base_url takes precedence over the including document\'s base',
+           'main schema created with an explicit base_url= and an include inside a document stored in a sub-directory'),
+ 'C10-3': ('elements.py raw_encode registers the resolved xsi:type in xsi_types',
+           'encode() of data carrying a complex xsi:type before the first validation that meets it, identity selector reaching derived-only content'),
+ 'C10-4': ('elements.py raw_decode: identity extension guarded by validation != "skip" while the xsi:type is still registered',
+           'a skip-mode decode (or a hook returning "skip") as first sighting of an (element, xsi:type) pair'),
+ 'C11-3': ('exceptions.py XMLSchemaChildrenValidationError.expected_tags: items[0] on an empty namespace list',
+           'XSD 1.1 strict xs:any with notNamespace in a content model and an invalid instance whose error lists that wildcard as expected'),
+ 'C12-3': ('urls.py normalize_url: absolute file:/// URLs that look normalised are returned unchanged (dot segments kept)',
+           'allow="sandbox" and a location spelled file:///.../sandbox/../outside/x.xsd'),
+ 'C13-3': ('sax.py defuse_xml scans only the buffered 64 KiB head of a non-seekable stream',
+           'a non-seekable buffered binary stream with more than 64 KiB of prolog before the entity declaration'),
+ 'C13-4': ('xml_resource.py is_defused looks at the URL of the resource instead of its base_url',
+           'defuse="remote", a source without URL (text, file object) and a remote base_url'),
+ 'C14-3': ('attributes.py restriction check of a fixed attribute normalises both values with the DERIVED type\'s whiteSpace',
+           'a fixed attribute re-typed from xs:string to xs:token with a fixed value that is not already collapsed'),
+ 'C14-4': ('groups.py Xsd11Group.is_choice_restriction: the derived group\'s maxima are never summed',
+           'XSD 1.1: a sequence (a,b,c) restricting choice(maxOccurs=2){a|b|c}'),
+ 'C15-3': ('elements.py Xsd11Element.is_overlap: substitution members compared through the direct substitutes only',
+           'XSD 1.1 substitutionGroup="h1 h2": both heads competing in one model'),
+ 'C15-4': ('wildcards.py XsdAnyElement.is_overlap: a shared ##local no longer counts as a common namespace',
+           'two wildcards with different namespace lists whose only common member is ##local'),
+ 'C16-3': ('wildcards.py XsdWildcard.__copy__: not_namespace / not_qname sets shared with the copy',
+           'XSD 1.1: a notNamespace / notQName wildcard used as first operand of a union / intersection, then looked at again'),
+ 'C16-4': ('attributes.py: intersection of attribute-group wildcards skipped when their namespace sets are equal',
+           'XSD 1.1: two referenced attribute groups whose wildcards are both notNamespace (namespace set empty) or differ only in notQName'),
+ 'C17-3': ('namespaces.py set_xmlns_context: several popped contexts restored from the innermost snapshot',
+           'stacked ENCODING of an element that rebinds a prefix and has a declaring descendant, followed by a sibling using that prefix'),
+ 'C17-4': ('converters/base.py keep_result_dict: the declarations of an unqualified element are dropped',
+           'default converter, stacked: a simple-content element in no namespace that undeclares the default namespace (xmlns="")'),
+ 'C18-3': ('xml_loader.py: the per-instance lazy lock became a class attribute',
+           'two threads validating DIFFERENT lazy resources with one schema at the same time'),
+ 'C19-3': ('etree.py etree_getpath: sibling position counted with parent.iter(tag) (recursive)',
+           'an element whose tag also occurs on its parent or deeper inside an earlier sibling (recursive models)'),
+ 'C19-4': ('exceptions.py: the error path is rendered eagerly for every XMLResource, with the namespace scope active at that moment',
+           'an inner element that declares a new prefix or rebinds a prefix of the root'),
+ 'C20-3': ('xpath/mixin.py find/findall/iterfind: "if not namespaces" replaces an EMPTY map by the schema document\'s own map',
+           'a no-namespace document and a schema document written with xmlns="http://www.w3.org/2001/XMLSchema"'),
+ 'C20-4': ('xpath/selectors.py selector cache key keeps only the prefixes that occur in the path (default namespace dropped)',
+           'the same unprefixed path text used on two documents with different default namespaces in one process'),
 }
 
 
